@@ -93,8 +93,29 @@ func concDiffMsg(sc *concScenario, v, solo [2]string) string {
 	return ""
 }
 
+// concStatementLevelOK runs the default execution several times with statement-level scheduling and
+// compares the label traces: code whose control flow depends on map iteration order (a loop over a
+// map that returns at the first match) takes different statement paths for identical inputs, which
+// a replay-based explorer cannot follow. Such a scenario is explored with the access-based
+// scheduling points only (they did not move). run(x) executes the scenario's body once.
+func concStatementLevelOK(run func(x *explore.Exec)) bool {
+	var first string
+	for i := 0; i < 40; i++ {
+		var b strings.Builder
+		sched.TraceLabels = func(th, l string) { b.WriteString(th); b.WriteByte(':'); b.WriteString(l); b.WriteByte(' ') }
+		run(explore.Replay(nil, nil))
+		sched.TraceLabels = nil
+		if i == 0 {
+			first = b.String()
+		} else if b.String() != first {
+			return false
+		}
+	}
+	return true
+}
+
 // concExplore runs the scenarios; violations are keyed <id>/concurrent/<key>.
-func concExplore(c *Ctx, id string, scs []*concScenario, boundQuick, boundThorough int) {
+func concExplore(c *Ctx, id string, scs []*concScenario, boundQuick, boundThorough int, everyStatementOf ...string) {
 	if os.Getenv("VERIF_WIDE") != "1" {
 		c.Info["concurrent_part"] = "skipped: the wide instrumentation did not build on this tree (see check.sh)"
 		c.Note("concurrent part skipped: no wide instrumentation")
@@ -104,12 +125,18 @@ func concExplore(c *Ctx, id string, scs []*concScenario, boundQuick, boundThorou
 	hooks := vatomic.Hooks
 	vatomic.Hooks = false
 	vrt.Enabled = true
-	defer func() { vrt.Enabled = false; vatomic.Hooks = hooks }()
+	// packages closest to the property are scheduled at every statement (a shared object reached through
+	// a local variable has no recorded access to park on), the rest of the handler where shared data is touched
+	vrt.AllStatements = map[string]bool{}
+	for _, p := range everyStatementOf {
+		vrt.AllStatements[p] = true
+	}
+	defer func() { vrt.Enabled = false; vatomic.Hooks = hooks; vrt.AllStatements = nil }()
 	bound := boundQuick
 	if !c.Quick() {
 		bound = boundThorough
 	}
-	c.Info["concurrent_part"] = map[string]any{"scenarios": len(scs), "preemption_bound": bound, "instrumentation": "wide"}
+	c.Info["concurrent_part"] = map[string]any{"scenarios": len(scs), "preemption_bound": bound, "instrumentation": "wide", "every_statement_of": everyStatementOf}
 	for si, sc := range scs {
 		if c.Expired() {
 			return
@@ -121,6 +148,14 @@ func concExplore(c *Ctx, id string, scs []*concScenario, boundQuick, boundThorou
 			continue
 		}
 		c.Inc("conc_scenarios_with_reference")
+		every := vrt.AllStatements
+		if len(every) > 0 && !concStatementLevelOK(func(x *explore.Exec) { concBody(sc, x) }) {
+			vrt.AllStatements = nil
+			c.Inc("conc_scenarios_without_statement_level_scheduling")
+			if c.Shard == 0 {
+				c.Note("concurrent scenario %s: statement paths differ between identical executions (map iteration order?): explored with access-based scheduling points only", sc.Name)
+			}
+		}
 		if solo[0] == solo[1] {
 			// the two requests look alike when served alone: an interference between them could not be seen
 			c.Inc("conc_scenarios_whose_requests_look_alike_alone")
@@ -128,7 +163,7 @@ func concExplore(c *Ctx, id string, scs []*concScenario, boundQuick, boundThorou
 				c.Note("concurrent scenario %s: both requests have the same view when served alone: %s", sc.Name, clipMid(solo[0], 200))
 			}
 		}
-		stats := explore.Run(explore.Config{MaxCost: bound, Deadline: c.Deadline, Shard: c.Shard, Shards: c.Shards, ShardDepth: 2}, func(x *explore.Exec, own bool) {
+		stats := explore.Run(explore.Config{MaxCost: bound, Deadline: c.Deadline, Shard: c.Shard, Shards: c.Shards, ShardDepth: 2, TolerateDivergence: true, MaxDivergences: 16}, func(x *explore.Exec, own bool) {
 			out, v, berr := concBody(sc, x)
 			if !own {
 				return
@@ -169,21 +204,29 @@ func concExplore(c *Ctx, id string, scs []*concScenario, boundQuick, boundThorou
 			})
 		})
 		c.Add("states", int64(stats.Executions))
+		vrt.AllStatements = every
+		if stats.Divergences > 0 {
+			c.Unstable("concurrent scenario %s: %d executions did not reproduce their replayed prefix", sc.Name, stats.Divergences)
+		}
 		if !stats.Exhaustive {
 			c.Exhaustive = false
-			c.Note("concurrent part %s: not exhaustive (level completed %d)", sc.Name, stats.LevelCompleted)
+			c.Note("concurrent part %s: not exhaustive (level completed %d, divergences %d)", sc.Name, stats.LevelCompleted, stats.Divergences)
 		}
 	}
 }
 
 // concReplayOne re-executes a recorded schedule of one of the scenarios.
-func concReplayOne(c *Ctx, id string, scs []*concScenario, rp concReplay) string {
+func concReplayOne(c *Ctx, id string, scs []*concScenario, rp concReplay, everyStatementOf ...string) string {
 	if os.Getenv("VERIF_WIDE") != "1" {
 		return "the wide instrumentation did not build: the schedule cannot be replayed"
 	}
 	vatomic.Hooks = false
 	vrt.Enabled = true
-	defer func() { vrt.Enabled = false }()
+	vrt.AllStatements = map[string]bool{}
+	for _, p := range everyStatementOf {
+		vrt.AllStatements[p] = true
+	}
+	defer func() { vrt.Enabled = false; vrt.AllStatements = nil }()
 	for _, sc := range scs {
 		if sc.Name != rp.Scenario {
 			continue
